@@ -443,6 +443,8 @@ class AffineDomain(Domain):
         return None
 
     def unary(self, interp, op, val, node):
+        if isinstance(val, Tup) and val.items and all(isinstance(x, A) for x in val.items) and isinstance(op, (ast.USub, ast.UAdd)):
+            return Tup([self.neg(x) if isinstance(op, ast.USub) else x for x in val.items])
         a = self.lift(val)
         if a is None:
             if isinstance(op, ast.Not) and isinstance(val, BoolC):
